@@ -2,6 +2,7 @@ package server
 
 import (
 	"context"
+	"errors"
 	"strings"
 	"time"
 
@@ -35,6 +36,9 @@ func NewAggregate(queryStr string) (*Aggregate, error) {
 	query, err := mapr.NewQuery(queryStr)
 	if err != nil {
 		return nil, err
+	}
+	if query == nil {
+		return nil, errors.New("Invalid query: empty mapreduce query")
 	}
 
 	fqdn, err := config.Hostname()
